@@ -1,16 +1,17 @@
 (* C07 for scancode set 2 on ext *)
 From Coq Require Import NArith List String.
-From PK Require Import Base.Outcome Base.Machine Gen.Types Impl Ext.Set2 ExtI.Scan Check.Scan Check.C07.
+From PK Require Import Base.Outcome Base.Machine Base.Reach Gen.Types Impl Ext.Set2 ExtI.Scan Check.Scan Check.C07.
 Import ListNotations.
 Local Open Scope N_scope.
 Notation I := ext_set2.
 Notation s0 := 0.
+Notation key := (fun s : N => s).
 
-Lemma inv : inv_C07 I s0 = true. Proof. vm_compute. reflexivity. Qed.
-Lemma res : resets_C07 I s0 = true. Proof. vm_compute. reflexivity. Qed.
-Lemma quiet : quiet_C07 I s0 3 = true. Proof. vm_compute. reflexivity. Qed.
+Lemma inv : inv_C07 I key s0 = true. Proof. vm_compute. reflexivity. Qed.
+Lemma res : resets_C07 I key s0 = true. Proof. vm_compute. reflexivity. Qed.
+Lemma quiet : quiet_C07 I key s0 3 = true. Proof. vm_compute. reflexivity. Qed.
 (* the bound is tight: 2 consecutive silent answers do occur *)
-Lemma quiet_tight : quiet_C07 I s0 2 = false. Proof. vm_compute. reflexivity. Qed.
+Lemma quiet_tight : quiet_C07 I key s0 2 = false. Proof. vm_compute. reflexivity. Qed.
 
 Theorem C07_resync : forall h b t, Forall byte (h ++ [b]) -> Forall byte t ->
   forall sh oh o, run (scan_machine I) s0 (h ++ [b]) = Ret (sh, oh ++ [o]) -> List.length oh = List.length h ->
@@ -18,14 +19,14 @@ Theorem C07_resync : forall h b t, Forall byte (h ++ [b]) -> Forall byte t ->
   sh = s0 /\
   run (scan_machine I) s0 ((h ++ [b]) ++ t) =
     match run (scan_machine I) s0 t with Ret (s', ot) => Ret (s', (oh ++ [o]) ++ ot) | Panic => Panic end.
-Proof. exact (C07_resync_sound I s0 inv res). Qed.
+Proof. exact (C07_resync_sound I key s0 inv res). Qed.
 
 Theorem C07_silence : forall h b, Forall byte h -> Forall byte b -> List.length b = 3%nat ->
   exists sh oh s' ob, run (scan_machine I) s0 h = Ret (sh, oh) /\ run (scan_machine I) sh b = Ret (s', ob) /\
                       existsb (fun o => negb (silent_sc o)) ob = true.
-Proof. exact (C07_silence_sound I s0 inv 3 quiet). Qed.
+Proof. exact (C07_silence_sound I key s0 inv 3 quiet). Qed.
 
 Print Assumptions C07_resync.
 Print Assumptions C07_silence.
-Eval vm_compute in ("states"%string, N.of_nat (List.length (sc_states I s0))).
-Eval vm_compute in ("evaluations"%string, 256 * N.of_nat (List.length (sc_states I s0))).
+Eval vm_compute in ("states"%string, N.of_nat (List.length (sc_states I key s0))).
+Eval vm_compute in ("evaluations"%string, 256 * N.of_nat (List.length (sc_states I key s0))).
